@@ -526,7 +526,21 @@ def c03_run_recipe(sr, work, drv, inp, shrink=True, deadline=None, shrunk=None):
     except Exception as e:  # noqa
         sr.dist("c03.recipe-not-buildable")
         return True
-    res = c03_eval(work, drv, nl, trig)
+    herr = None
+    if inp.get("history") is not None:
+        # replay of a recorded history; or ("gen": seed) generate one now and record it in the input
+        if isinstance(inp["history"], dict):
+            hr = random.Random(inp["history"]["gen"])
+            nl, ops, herr = gen_history(hr, work, nl, first=inp["history"].get("first"))
+            inp = dict(inp, history=ops)
+        else:
+            nl, herr = apply_history(work, nl, inp["history"], strict=False)
+        sr.dist("c03.history")
+        sr.dist("c03.history.steps=%d" % min(len(inp["history"]), 8))
+    if herr is not None:
+        res = {"corr": [], "spec": ("history." + herr.split(":")[0], herr), "tags": [], "triggers": []}
+    else:
+        res = c03_eval(work, drv, nl, trig)
     f = G.features03(inp["net"])
     sr.case(stable_hash(inp["net"]), f["nontrivial"])
     sr.dist("c03.api" + (".trigger=" + trig if trig else ""))
@@ -547,15 +561,43 @@ def c03_run_recipe(sr, work, drv, inp, shrink=True, deadline=None, shrunk=None):
                 shrink = False
             shrunk.add(sig)
         if shrink and (deadline is None or time.time() < deadline):
-            def fails(e):
+            hist0 = inp.get("history")
+
+            def run(e, hist):
                 try:
                     n2 = build_from_canon(e)
                 except Exception:  # noqa
-                    return False
+                    return None
+                if hist is not None:
+                    n2, he = apply_history(work, n2, hist, strict=False)
+                    if he is not None:
+                        return ("history." + he.split(":")[0], he)
                 r2 = c03_eval(work, drv, n2, trig, second_pass=("parse_compose_parse" in res["spec"][1] or "_of_parsed" in res["spec"][1]))
-                return r2["spec"] is not None and r2["spec"][0] == sig
-            net2 = G.shrink03(inp["net"], fails, max_steps=200)
-        sr.spec_failure(sig, {"kind": "recipe", "net": net2, "trigger": trig}, res["spec"][1])
+                return r2["spec"]
+
+            def same(sp):
+                return sp is not None and sp[0] == sig
+            # first the history (drop steps), then the netlist
+            if hist0:
+                changed = True
+                while changed and time.time() < (deadline or time.time() + 30):
+                    changed = False
+                    for k in range(len(hist0)):
+                        h2 = hist0[:k] + hist0[k + 1:]
+                        if same(run(inp["net"], h2)):
+                            hist0 = h2
+                            changed = True
+                            break
+            net2 = G.shrink03(inp["net"], lambda e: same(run(e, hist0)), max_steps=150)
+            out = {"kind": "recipe", "net": net2, "trigger": trig}
+            if hist0 is not None:
+                out["history"] = hist0
+            sr.spec_failure(sig, out, res["spec"][1])
+            return False
+        out = {"kind": "recipe", "net": net2, "trigger": trig}
+        if inp.get("history") is not None:
+            out["history"] = inp["history"]
+        sr.spec_failure(sig, out, res["spec"][1])
         return False
     return True
 
@@ -594,6 +636,190 @@ def corr_sig(res, what=""):
         if t in side:
             return SIG[t]
     return None
+
+
+
+# ------------------------------------------------------------------------------------------------
+# C03 histories: write -> edit -> write -> read on ONE netlist (API-built or reader-produced)
+# ------------------------------------------------------------------------------------------------
+def _lib(nl, name):
+    return next(l for l in nl.libraries if l.name == name)
+
+
+def _def(nl, lib, name):
+    return next(d for d in _lib(nl, lib).definitions if d.name == name)
+
+
+_DIRS = None
+
+
+def _dir(sdn, d):
+    return {"IN": sdn.IN, "OUT": sdn.OUT, "INOUT": sdn.INOUT}[d]
+
+
+def apply_op(work, nl, op):
+    """apply one history step through the public API; returns the (possibly new) netlist"""
+    sdn = _sdn()
+    k = op["op"]
+    if k == "compose":
+        restore_policy()
+        sdn.compose(nl, work.path())
+    elif k == "reparse":
+        restore_policy()
+        f = work.path()
+        sdn.compose(nl, f)
+        try:
+            nl = sdn.parse(f)
+        finally:
+            restore_policy()
+    elif k == "add_def":
+        lib = _lib(nl, op["lib"])
+        d = lib.create_definition(name=op["name"])
+        for (pn, pd, w) in op["ports"]:
+            p = d.create_port(name=pn)
+            p.direction = _dir(sdn, pd)
+            p.create_pins(w)
+        if op.get("host") is not None:
+            _def(nl, op["lib"], op["host"]).create_child(name=op["inst"], reference=d)
+    elif k == "add_inst":
+        d = _def(nl, op["lib"], op["def"])
+        d.create_child(name=op["name"], reference=_def(nl, op["lib"], op["ref"]))
+    elif k == "add_port":
+        d = _def(nl, op["lib"], op["def"])
+        p = d.create_port(name=op["name"])
+        p.direction = _dir(sdn, op["dir"])
+        p.create_pins(op["width"])
+    elif k == "add_cable":
+        d = _def(nl, op["lib"], op["def"])
+        c = d.create_cable(name=op["name"])
+        c.create_wires(op["width"])
+        if op["width"] == 1:
+            c.is_scalar = not op["array"]
+        c.lower_index = op["lower"]
+    elif k == "rename":
+        if op["kind"] == "lib":
+            _lib(nl, op["old"]).name = op["new"]
+        else:
+            d = _def(nl, op["lib"], op["def"]) if op["kind"] != "def" else None
+            if op["kind"] == "def":
+                _def(nl, op["lib"], op["old"]).name = op["new"]
+            else:
+                lst = {"port": d.ports, "cable": d.cables, "inst": d.children}[op["kind"]]
+                next(x for x in lst if x.name == op["old"]).name = op["new"]
+    return nl
+
+
+def apply_history(work, nl, ops, strict=True):
+    """-> (netlist, error text | None).  Non-strict (replay of a shrunk input): steps that no longer
+    apply are skipped."""
+    for op in ops:
+        try:
+            nl = apply_op(work, nl, op)
+        except (StopIteration, KeyError, IndexError):
+            if strict:
+                return nl, "history step does not apply: " + json.dumps(op)[:120]
+        except Exception as e:  # noqa
+            if op["op"] in ("compose", "reparse"):
+                return nl, "%s.raises.%s: %s" % (op["op"], exc_family(e), str(e)[:160])
+            if strict:
+                return nl, "edit refused (%s): %s" % (exc_family(e), json.dumps(op)[:120])
+    return nl, None
+
+
+def edit_name(rng, siblings, bus=False, scalar_net=False):
+    """name for an element added / renamed by an edit.  Half of the time it is built to COLLIDE with
+    what the siblings already carry: a name whose sanitised form is a sibling's EDIF.identifier (an
+    identifier stamped by an earlier compose or by the reader), or a sibling's name in another letter
+    case; otherwise a fresh or cross-scope name."""
+    names = {x.name for x in siblings if x.name is not None}
+    idents = [x["EDIF.identifier"] for x in siblings if "EDIF.identifier" in x]
+    for _ in range(30):
+        r = rng.random()
+        s = None
+        if r < 0.4 and idents:
+            ident = rng.choice(idents)
+            body = ident[1:] if ident.startswith("&") else ident
+            s = "".join((rng.choice("_[].$/ -") if ch == "_" else (ch.swapcase() if rng.random() < 0.15 else ch))
+                        for ch in body)
+            if ident.startswith("&") and s and s[0].isalpha():
+                s = rng.choice("$.0") + s
+        elif r < 0.55 and names:
+            s = rng.choice(sorted(names))
+            s = s.swapcase() if rng.random() < 0.5 else s + rng.choice(["_", "$", "_sdn_1_", "[0]"])
+        else:
+            s = G.gen_name03(rng, set(names), bus=bus, scalar_net=scalar_net)
+        if not s or s in names or s[0] == "\\" or '"' in s or not G.name_ok03(s, bus, scalar_net):
+            continue
+        return s
+    return G.gen_name03(rng, set(names), bus=bus, scalar_net=scalar_net)
+
+
+def gen_history(rng, work, nl, first=None, n_edits=None):
+    """generate AND apply a history; -> (netlist, ops, error | None)"""
+    ops = []
+
+    def do(op):
+        nonlocal nl
+        nl2, err = apply_history(work, nl, [op], strict=True)
+        if err is None or op["op"] in ("compose", "reparse"):
+            ops.append(op)
+        nl = nl2
+        return err
+    if first:
+        err = do({"op": first})
+        if err:
+            return nl, ops, err
+    rounds = 1 if rng.random() < 0.7 else 2
+    for rd in range(rounds):
+        for _ in range(n_edits or rng.randint(1, 4)):
+            libs = [l for l in nl.libraries if l.definitions]
+            if not libs:
+                break
+            lib = rng.choice(libs)
+            d = rng.choice(lib.definitions)
+            k = rng.choice(["add_def", "add_def", "add_inst", "add_port", "add_cable", "rename"])
+            if k == "add_def":
+                host = d if rng.random() < 0.75 else None
+                op = {"op": "add_def", "lib": lib.name, "name": edit_name(rng, lib.definitions),
+                      "ports": [[n, rng.choice(["IN", "OUT", "INOUT"]), rng.randint(1, 3)]
+                                for n in {edit_name(rng, []) for _ in range(rng.randint(1, 2))}],
+                      "host": host.name if host else None,
+                      "inst": edit_name(rng, host.children) if host else None}
+            elif k == "add_inst":
+                leafs = [x for x in lib.definitions if not x.children and x is not d]
+                if not leafs:
+                    continue
+                op = {"op": "add_inst", "lib": lib.name, "def": d.name, "name": edit_name(rng, d.children),
+                      "ref": rng.choice(leafs).name}
+            elif k == "add_port":
+                op = {"op": "add_port", "lib": lib.name, "def": d.name, "name": edit_name(rng, d.ports),
+                      "dir": rng.choice(["IN", "OUT", "INOUT"]), "width": rng.randint(1, 3)}
+            elif k == "add_cable":
+                w = rng.randint(1, 3)
+                arr = w > 1 or rng.random() < 0.2
+                op = {"op": "add_cable", "lib": lib.name, "def": d.name,
+                      "name": edit_name(rng, d.cables, bus=arr, scalar_net=not arr), "width": w, "array": arr,
+                      "lower": (rng.choice([0, 2, 7]) if arr else 0)}
+            else:
+                kind = rng.choice(["def", "port", "cable", "inst", "lib"])
+                if kind == "lib":
+                    op = {"op": "rename", "kind": "lib", "old": lib.name, "new": edit_name(rng, nl.libraries)}
+                elif kind == "def":
+                    op = {"op": "rename", "kind": "def", "lib": lib.name, "old": d.name, "new": edit_name(rng, lib.definitions)}
+                else:
+                    lst = {"port": d.ports, "cable": d.cables, "inst": d.children}[kind]
+                    if not lst:
+                        continue
+                    x = rng.choice(lst)
+                    is_bus = kind == "cable" and (len(x.wires) > 1 or x.is_array)
+                    op = {"op": "rename", "kind": kind, "lib": lib.name, "def": d.name, "old": x.name,
+                          "new": edit_name(rng, lst, bus=is_bus, scalar_net=(kind == "cable" and not is_bus))}
+            do(op)          # an edit the API refuses (e.g. a name clash under the EDIF policy) is simply not part of the history
+        if rd + 1 < rounds:
+            err = do({"op": rng.choice(["compose", "reparse"])})
+            if err:
+                return nl, ops, err
+    return nl, ops, None
 
 
 # ------------------------------------------------------------------------------------------------
@@ -664,6 +890,9 @@ def worker(pid, seed, shard_no, n_cases, tier, t_end, files, boost):
                 if rng.random() < 0.8 or trig:
                     net = G.gen_recipe(rng, size, trig)
                     inp = {"kind": "recipe", "net": net, "trigger": trig}
+                    if trig is None and rng.random() < 0.45:
+                        # write (or write + read back) -> edit -> [write -> edit] -> write -> read
+                        inp["history"] = {"gen": rng.randrange(1 << 30), "first": rng.choice(["compose", "compose", "reparse"])}
                     ok = c03_run_recipe(sr, work, drv, inp, shrink=True, deadline=t_end, shrunk=shrunk)
                     if i < 2 and ok:
                         sr.sample({"kind": "recipe", "view03": G.view03(net)["libraries"] if size == "small" else "…", "trigger": trig})
